@@ -301,6 +301,7 @@ func cmdCheck(args []string) {
 			os.Remove(f)
 		}
 	}
+	eng.verifDir = *verif
 	kfs := loadKnown(filepath.Join(*verif, "known_findings.json"))
 	pp, lines := runProof(eng, *prop, *tier, kfs, filepath.Join(*verif, "replays"))
 	for _, l := range lines {
